@@ -23,6 +23,7 @@ EVIDENCE_DIR = os.environ.get("SDPV_EVIDENCE_DIR") or os.path.join(VERIF, "evide
 REPLAY_DIR = os.environ.get("SDPV_REPLAY_DIR") or os.path.join(VERIF, "replays")
 KNOWN_FILE = os.path.join(VERIF, "known_findings.json")
 WORKERS = int(os.environ.get("VERIF_WORKERS", "16"))
+CHUNK = int(os.environ.get("SDPV_CHUNK", "1500"))
 SHAPE_ERRORS = (KeyError, TypeError, IndexError, AttributeError, ValueError, AssertionError)
 
 
@@ -134,6 +135,7 @@ class _Collector:
         self.samples = []
         self.viol = {}
         self.smallest = None
+        self.chunk = None  # (seed, size) of the Hypothesis run that is generating right now
         self.t0 = time.time()
 
     def body(self, case):
@@ -156,7 +158,7 @@ class _Collector:
         for bucket, msg in out.violations:
             v = self.viol.get(bucket)
             if v is None:
-                self.viol[bucket] = {"count": 1, "case": case, "message": msg}
+                self.viol[bucket] = {"count": 1, "case": case, "message": msg, "chunk": self.chunk}
             else:
                 v["count"] += 1
                 if len(json.dumps(case, default=str)) < len(json.dumps(v["case"], default=str)):
@@ -227,8 +229,15 @@ def _shard(args):
         for k, case in enumerate(prop.enumerated(tier)):
             if k % nshards == idx:
                 col.body(case)
-        if n_examples > 0:
-            _hyp_run(prop, tier, seed, n_examples, col.body)
+        # Hypothesis keeps a tree of everything it has generated in one run; large budgets are therefore split into chunks with
+        # their own derived seeds, which bounds the memory of a shard and changes nothing else
+        done, k = 0, 0
+        while done < n_examples:
+            n = min(CHUNK, n_examples - done)
+            col.chunk = (seed + 104729 * k, n)
+            _hyp_run(prop, tier, seed + 104729 * k, n, col.body)
+            done += n
+            k += 1
         machine = prop.machine(tier, col) if n_examples > 0 else None
         if machine is not None:
             _machine_run(machine, prop, tier, seed, max(1, int(n_examples * prop.machine_share)))
@@ -354,12 +363,13 @@ def _sharded_search(pid, prop, tier, seed, notes):
             for b, v in r["viol"].items():
                 cur = buckets.get(b)
                 if cur is None:
-                    buckets[b] = dict(v, seed=r["seed"])
+                    ch = v.get("chunk") or (r["seed"], per)
+                    buckets[b] = dict(v, seed=ch[0], n=ch[1])
                 else:
                     cur["count"] += v["count"]
         # ---- phase B: shrink up to 3 new buckets with Hypothesis
         todo = sorted(buckets.items(), key=lambda kv: -kv[1]["count"])
-        shrink_jobs = [(pid, tier, v["seed"], per, b, prop.shrink_seconds) for b, v in todo[:3]]
+        shrink_jobs = [(pid, tier, v["seed"], v.get("n", per), b, prop.shrink_seconds) for b, v in todo[:3]]
         if shrink_jobs and os.environ.get("SDPV_NO_SHRINK") != "1" and per > 0:
             shrunk = pool.map(_shrink, shrink_jobs, chunksize=1)
             for (b, v), s in zip(todo[:3], shrunk):
